@@ -57,10 +57,10 @@ def cases(tier: str, seed: int) -> List[Dict[str, Any]]:
 
     for name in OPS:
         for seq in (["bfloat16", "float64"], ["float16", "float32", "float64"], ["float64", "bfloat16", "float64"]):
-            out.append({"kind": "dtype_history", "op": name, "seq": seq, "seed": seed})
+            out.append({"kind": "dtype_history", "op": name, "seq": seq, "seed": seed, "fresh": True})
     for f in (0.1, 3.0, -0.3):
         for prim in ("scale_fwd", "scale_bwd"):
-            out.append({"kind": "prim_history", "prim": prim, "factor": f, "seq": ["float16", "bfloat16", "float32", "float64"]})
+            out.append({"kind": "prim_history", "prim": prim, "factor": f, "seq": ["float16", "bfloat16", "float32", "float64"], "fresh": True})
     for prim, f, sh, dt in itertools.product(["scale_fwd", "scale_bwd"], FACTORS, PSHAPES,
                                              ["float64", "float32", "bfloat16", "float16"]):
         out.append({"kind": "prim", "prim": prim, "factor": f, "shape": sh, "dtype": dt, "seed": seed})
